@@ -81,7 +81,7 @@ def c_homog(case, ctx):
     if kind == "Homogeneous":
         # y must lie in the range of the domain: images of domain points (divisor of the inverse = 1/forward divisor)
         y = rw.apply_h(h, y)
-        ctx.expect(bool(np.all(np.abs(rw.divisors(h, x)) > 0.5)), "harness.divisor_near_zero", "")
+        ctx.expect(bool(np.all(np.abs(rw.divisors(h, x) / h[d, d]) > 0.5)), "harness.divisor_near_zero", "")
     declared = bool(t.has_true_inverse)
     ctx.event("has_true_inverse=%s" % declared)
     before = digest.digest(t)
